@@ -5,6 +5,7 @@ import (
 	"go/ast"
 	"go/token"
 	"go/types"
+	"os"
 	"strings"
 )
 
@@ -47,6 +48,9 @@ type callee struct {
 	ord      int
 	argVals  []T
 	recvVal  *T
+	// implicit embedded-field path of a promoted method (all but the last index of the selection)
+	selPath []int
+	selRecv types.Type
 }
 
 func (x *Exec) resolveCallee(st *State, call *ast.CallExpr) *callee {
@@ -100,6 +104,9 @@ func (x *Exec) resolveCallee(st *State, call *ast.CallExpr) *callee {
 				c.fn = sel.Obj().(*types.Func)
 				c.name = funcFullName(c.fn)
 				c.recv = f.X
+				if idx := sel.Index(); len(idx) > 1 {
+					c.selPath, c.selRecv = idx[:len(idx)-1], sel.Recv()
+				}
 				return c
 			case types.FieldVal:
 				// func-typed field
@@ -156,6 +163,10 @@ func (x *Exec) evalCallWithArgs(st *State, call *ast.CallExpr, pre []T) T {
 	var recv *T
 	if c.recv != nil {
 		r := x.eval(st, c.recv)
+		if len(c.selPath) > 0 {
+			// promoted method: the receiver is the embedded field, not the outer value
+			r = x.loadPath(st, r, c.selRecv, c.selPath, call)
+		}
 		// auto address / deref to match receiver kind
 		if c.fn != nil {
 			sig := c.fn.Type().(*types.Signature)
@@ -408,6 +419,8 @@ func (x *Exec) applyContract(st *State, ct *Contract, c *callee, recv *T, args [
 	}
 	old := st.clone()
 	env.old = old
+	// vacuity guard: the callee's contract must not make a reachable call site unreachable
+	x.cover(st, anchor+"/before", call)
 	// havoc modifies
 	x.havocModifies(st, ct, env, call)
 	// results
@@ -444,6 +457,15 @@ func (x *Exec) applyContract(st *State, ct *Contract, c *callee, recv *T, args [
 		t := x.specEval(st, e.Expr, env)
 		st.assume(t.S)
 	}
+	for _, dcl := range ct.Defines {
+		// the spec term is, by definition, the result of this function
+		if len(results) >= 1 {
+			t := x.specEval(st, dcl.Expr, env)
+			st.assume(eq(results[0].S, t.S))
+			x.note("defined: %s is defined as the result of %s (a deterministic function of those arguments: receiver state it reads is written only at construction)", dcl.Text, ct.Key)
+		}
+	}
+	x.cover(st, anchor+"/after", call)
 	return pack(results, call)
 }
 
@@ -526,6 +548,9 @@ func (x *Exec) havocModifies(st *State, ct *Contract, env *specEnv, n ast.Node) 
 				continue
 			}
 			fname := txt[k+1:]
+			if os.Getenv("GOVC_DEBUG_MOD") != "" {
+				fmt.Fprintf(os.Stderr, "DEBUG havoc %s: base=%s ty=%s\n", txt, base.S, base.Ty)
+			}
 			for i := 0; i < su.NumFields(); i++ {
 				f := su.Field(i)
 				if f.Name() == fname || fname == "*" {
@@ -996,6 +1021,10 @@ func (x *Exec) evalBuiltin(st *State, call *ast.CallExpr, name string) T {
 			st.assume(fmt.Sprintf("(forall ((i Int)) (! (=> (and (<= 0 i) (< i (slc-len %s))) (= (select (slc-arr %s) i) %s)) :pattern ((select (slc-arr %s) i))%s))", base.S, res.S, slcAt(base.S, "i"), res.S, basePat))
 			// the tail is read through the result index (arithmetic-free trigger)
 			st.assume(fmt.Sprintf("(forall ((t Int)) (! (=> (and (<= (slc-len %s) t) (< t (slc-len %s))) (= (select (slc-arr %s) t) (select (slc-arr %s) (+ (slc-off %s) (- t (slc-len %s)))))) :pattern ((select (slc-arr %s) t))))", base.S, res.S, res.S, other.S, other.S, base.S, res.S))
+			if slcOff(other.S) == "0" {
+				// the same tail fact read through the appended operand (witnesses carry over)
+				st.assume(fmt.Sprintf("(forall ((i Int)) (! (=> (and (<= 0 i) (< i (slc-len %s))) (= (select (slc-arr %s) (+ (slc-len %s) i)) %s)) :pattern (%s)))", other.S, res.S, base.S, slcAt(other.S, "i"), slcAt(other.S, "i")))
+			}
 			return res
 		}
 		cur := base.S
@@ -1062,6 +1091,13 @@ func (x *Exec) evalBuiltin(st *State, call *ast.CallExpr, name string) T {
 		na := x.d.freshName("copied")
 		x.d.declareConst(na, "(Array Int "+x.d.sortOf(dst.Ty.Underlying().(*types.Slice).Elem())+")")
 		st.assume(fmt.Sprintf("(forall ((i Int)) (! (= (select %s i) (ite (and (<= (slc-off %s) i) (< i (+ (slc-off %s) %s))) (select (slc-arr %s) (+ (slc-off %s) (- i (slc-off %s)))) (select (slc-arr %s) i))) :pattern ((select %s i))))", na, dst.S, dst.S, n.S, src.S, src.S, dst.S, dst.S, na))
+		if bt := x.typeOf(stripSlice(call.Args[0])); bt != nil {
+			if _, isArr := bt.Underlying().(*types.Array); isArr {
+				// copy(arr[a:b], src): the target is the array value itself
+				x.assign(st, stripSlice(call.Args[0]), T{S: na, Ty: bt})
+				return n
+			}
+		}
 		x.assign(st, stripSlice(call.Args[0]), T{S: fmt.Sprintf("(mk-slc %s (slc-off %s) (slc-len %s))", na, x.baseSliceTerm(st, call.Args[0]), x.baseSliceLen(st, call.Args[0])), Ty: x.typeOf(stripSlice(call.Args[0]))})
 		return n
 	case "panic":
